@@ -2,11 +2,14 @@
 # Build every monitor from files on disk only (offline). A crate that fails to build only
 # affects its own check (./check rebuilds and reports INCONCLUSIVE), never the others.
 set -u
-cd "$(dirname "$0")/harness"
+ROOT="$(cd "$(dirname "$0")" && pwd)"
+cd "$ROOT/harness"
 export CARGO_NET_OFFLINE=true
 rc=0
 cargo build --release --offline -p vcore -p vstate || rc=1
 for c in c01 c02 c03 c04 c05 c06 c07 c08 c09 c10 c11 c12 c13 c14 c15 c16 c17 c18 c19 c20; do
   cargo build --release --offline -p "$c" 2>&1 | tail -2 || true
 done
+# the `box` binary for the CLI stage of C12 (stages/C12.sh rebuilds it incrementally on every run)
+(cd "${VERIF_REPO:-/repo}" && cargo build --release --offline -p boxworks-bin --bin box --target-dir "$ROOT/harness/target/boxbin" 2>&1 | tail -1) || true
 exit $rc
